@@ -5,7 +5,10 @@ cd /repo || exit 2
 if [ -n "$(git status --porcelain --untracked-files=no)" ]; then echo "REPO DIRTY"; exit 2; fi
 git apply "$p" 2>/dev/null || git apply -3 "$p" 2>/dev/null || { echo "APPLY-FAILED $p"; git reset -q --hard HEAD; exit 3; }
 cd /verif
+stamp=$(mktemp)
 out=$(./check $cid $tier 2>&1); rc=$?
+# counterexamples of a seeded change are not kept
+find /verif/replays -name "*.json" -newer $stamp -delete 2>/dev/null; rm -f $stamp
 git -C /repo reset -q --hard HEAD
 echo "$out" | grep -E "^(VIOLATION|KNOWN-FINDING|OK|MACHINERY)" | head -5
 echo "  clause: $(echo "$out" | grep -E '^  clause' | head -2 | cut -c1-300)"
